@@ -256,50 +256,107 @@ def _guard_terms(test, params):
     return terms
 
 
+class SegmModel:
+    """The cone tables of genhkl_base, obtained by *evaluating* (E7) the statements of the function that precede its first
+    loop for a concrete (Laue class, cell choice, crystal system): whichever way the tables are stored (one literal per
+    guarded assignment, an if/elif chain, a helper function, a dictionary), the value that reaches the loop is the table."""
+
+    def __init__(self, rel):
+        self.rel = rel
+        self.mod = module(rel)
+        self.fn = self.mod.func("genhkl_base")
+        self._cache = {}
+
+    def _evaluate(self, Laue, cc, csys):
+        # tests on the cell (they only select log messages) are answered both ways: the table must not depend on them
+        results = [self._evaluate_once(Laue, cc, csys, sg) for sg in (1, 0, -1)]
+        if any(r != results[0] for r in results[1:]):
+            raise AnalysisError("%s genhkl_base: the cone table for Laue %r / %r depends on a comparison of cell parameters" % (self.rel, Laue, cc))
+        return results[0]
+
+    def _evaluate_once(self, Laue, cc, csys, sign):
+        from .objeval import ObjEvaluator, PyRaise
+        from .symeval import Arr, RaiseReached, sym_array, const_int, materialise
+        from .poly import Rat
+        ev = ObjEvaluator(self.mod, inline=set(), max_depth=8, sign_policy=lambda d, node=None: sign)
+        fn = self.fn
+        env = {}
+        given = {"Laue_class": Laue, "cell_choice": cc, "crystal_system": csys if csys is not None else "triclinic",
+                 "unit_cell": sym_array("unit_cell", (6,)), "sysconditions": sym_array("sysconditions", (26,)),
+                 "sintlmin": Rat.atom("sintlmin"), "sintlmax": Rat.atom("sintlmax"), "output_stl": None}
+        params = [a.arg for a in fn.args.args]
+        nd = len(fn.args.defaults)
+        for i, p in enumerate(params):
+            if p in given:
+                env[p] = given[p]
+            else:
+                j = i - (len(params) - nd)
+                env[p] = ev.eval(fn.args.defaults[j], {}) if j >= 0 else Rat.atom(p)
+
+        def is_table(v):
+            A = v if isinstance(v, Arr) else (materialise(v) if isinstance(v, (list, tuple)) else None)
+            if A is None:
+                return None
+            shp = A.shape
+            if len(shp) != 3 or shp[1:] != (4, 3):
+                return None
+            rows = []
+            for cone in A.data:
+                r4 = []
+                for vec in cone:
+                    ints = [const_int(x) for x in vec]
+                    if any(i is None for i in ints):
+                        return None
+                    r4.append(ints)
+                rows.append(r4)
+            return rows
+        found = []
+        try:
+            for st in body_wo_doc(fn):
+                if isinstance(st, (ast.For, ast.While)):
+                    if isinstance(st, ast.For):
+                        try:
+                            t = is_table(ev.eval(st.iter, env))
+                            if t is not None:
+                                found.append(t)
+                        except AnalysisError:
+                            pass
+                    break
+                ev.exec_stmt(st, env)
+        except (PyRaise, RaiseReached):
+            return None            # the combination is rejected before the walk starts
+        for v in env.values():
+            t = is_table(v) if not isinstance(v, (str, bool, type(None))) else None
+            if t is not None and t not in found:
+                found.append(t)
+        if len(found) > 1:
+            raise AnalysisError("%s genhkl_base: several cone tables are alive when the walk starts for Laue %r / %r" % (self.rel, Laue, cc))
+        return found[0] if found else None
+
+    def table(self, Laue, cc, csys=None):
+        key = (Laue, cc, csys)
+        if key not in self._cache:
+            self._cache[key] = self._evaluate(Laue, cc, csys)
+        return self._cache[key]
+
+    def table_key(self, Laue, cc, csys=None):
+        return repr(self.table(Laue, cc, csys))
+
+    def select(self, Laue, cc, csys=None):
+        t = self.table(Laue, cc, csys)
+        return [] if t is None else [{"guard": None, "table": t, "line": self.fn.lineno}]
+
+    def count(self, settings):
+        return len({self.table_key(s.Laue, s.cell_choice, s.crystal_system) for s in settings} - {"None"})
+
+
 def extract_segm(rel):
-    """Cone tables of genhkl_base: list of dict(guard=[(param,op,lit)], table=..., line=)"""
-    m = module(rel)
-    fn = m.func("genhkl_base")
-    params = {a.arg for a in fn.args.args}
-    tables = []
-    for stmt in body_wo_doc(fn):
-        if isinstance(stmt, ast.If):
-            terms = _guard_terms(stmt.test, params)
-            if terms is None:
-                continue
-            for s2 in ast.walk(stmt):
-                if isinstance(s2, ast.Assign) and len(s2.targets) == 1 and isinstance(s2.targets[0], ast.Name) \
-                        and s2.targets[0].id == "segm":
-                    if s2 not in stmt.body or not _is_np_array_call(s2.value):
-                        raise AnalysisError("%s genhkl_base: segm assigned in an unrecognised way (line %d)"
-                                            % (rel, s2.lineno))
-                    tables.append({"guard": terms, "table": literal(s2.value.args[0]), "line": s2.lineno})
-    # no other assignment to segm than `segm = None` and the guarded literals
-    n_assign = 0
-    for node in ast.walk(fn):
-        if isinstance(node, ast.Assign):
-            for t in node.targets:
-                if isinstance(t, ast.Name) and t.id == "segm":
-                    n_assign += 1
-    if n_assign != len(tables) + 1:
-        raise AnalysisError("%s genhkl_base: %d stores to segm, %d recognised" % (rel, n_assign, len(tables) + 1))
-    return tables
+    return SegmModel(rel)
 
 
-def select_segm(tables, Laue, cell_choice):
-    """Evaluate the if-ladder on constants: all tables whose guard is true, in
-    source order (the last store wins at run time)."""
-    hits = []
-    env = {"Laue_class": Laue, "cell_choice": cell_choice}
-    for t in tables:
-        ok = True
-        for (p, op, lit) in t["guard"]:
-            if p not in env:
-                raise AnalysisError("genhkl_base guard on unexpected parameter %s" % p)
-            ok = ok and ((env[p] == lit) if op == "==" else (env[p] != lit))
-        if ok:
-            hits.append(t)
-    return hits
+def select_segm(segm, Laue, cell_choice, crystal_system=None):
+    """the cone table that reaches the walk for this combination: [] or [hit]"""
+    return segm.select(Laue, cell_choice, crystal_system)
 
 
 # --------------------------------------------------------------------------
